@@ -98,13 +98,21 @@ structure Cfg where
   staticReserved : Bool
   /-- cpus and mem of the task are subtracted from what remains of the offer -/
   scalarsSubtracted : Bool
+  /-- the class store (`taskclass.Classes.UpdateClass`): a class loaded again under a key that is
+      already held OVERWRITES the held entry, whatever it holds. `false` describes a store that keeps
+      the held entry when `Class.Equals` (command and wants only) finds nothing changed — NOT the code. -/
+  storeOverwrites : Bool := true
   deriving DecidableEq, Repr, Inhabited
 
-/-- The code as it is (with notes/C05.fix-3, fix-4, fix-5). -/
-def codeCfg : Cfg := { drawChecked := true, staticReserved := true, scalarsSubtracted := true }
+/-- The code as it is (with notes/C05.fix-3, fix-4, fix-5; the class store overwrites). -/
+def codeCfg : Cfg := { drawChecked := true, staticReserved := true, scalarsSubtracted := true, storeOverwrites := true }
 
-/-- The code as it was before those three repairs. -/
-def legacyCfg : Cfg := { drawChecked := false, staticReserved := false, scalarsSubtracted := false }
+/-- The code as it was before those three repairs (the class store has always overwritten). -/
+def legacyCfg : Cfg := { drawChecked := false, staticReserved := false, scalarsSubtracted := false, storeOverwrites := true }
+
+/-- NOT the code: the code as it is, but with a class store that keeps the held entry of a key
+    when `Class.Equals` says the reloaded class is the same. -/
+def keepIfEqualCfg : Cfg := { codeCfg with storeOverwrites := false }
 
 /-- Which of the two behaviours the linked Satisfy / RangesFromExpression show
     (probed), and the bookkeeping configuration (tied to the source). -/
@@ -465,6 +473,9 @@ structure Class where
   mem : Nat
   portsExpr : List Char
   inbound : List Bool
+  /-- `command.value` of the template: of no consequence for placement, but it is one of the
+      things `Class.Equals` looks at. -/
+  cmd : String := ""
   deriving DecidableEq, Repr, Inhabited
 
 structure Desc where
@@ -641,5 +652,68 @@ def round (m : Mode) (offers : List Offer) (descs : List Desc) (order : List Off
       { accepts := st.accepts,
         declined := (offers.map (·.oid)).filter (fun i => !st.usedIds.contains i),
         undeployed := st.still, undeployable := st.und, crashed := st.crashed }
+
+/-! ## the class store across workflow loads
+
+`Manager.classes` (`taskclass.Classes`, a map key → *Class) is filled by
+`Manager.RefreshClasses` at every workflow load: every class the workflow needs is
+handed to `Classes.UpdateClass(key, class)`. `BuildDescriptorConstraints`,
+`GetWantsForDescriptor` (and the task-reuse path) read it with `GetClass`. The
+store is an association list here; only `storeGet` is ever observed. -/
+
+abbrev Key := Nat
+abbrev Store := List (Key × Class)
+
+/-- `Classes.GetClass`. -/
+def storeGet : Store → Key → Option Class
+  | [], _ => none
+  | (k', c) :: rest, k => if k' = k then some c else storeGet rest k
+
+/-- `Class.Equals`: command, wants.cpu, wants.memory and wants.ports (the parsed
+    ranges, element by element) — nothing else (not constraints, not bind). -/
+def Class.equalsCW (rngFixed : Bool) (a b : Class) : Bool :=
+  a.cmd == b.cmd && a.cpu == b.cpu && a.mem == b.mem &&
+  (parseRanges rngFixed a.portsExpr).getD [] == (parseRanges rngFixed b.portsExpr).getD []
+
+/-- `Classes.UpdateClass(k, c)`. With `storeOverwrites` (the code): the entry of a
+    held key is overwritten, a new key is added. Without: the held entry stays if
+    `Class.Equals(held, c)`. -/
+def storeUpdate (m : Mode) : Store → Key → Class → Store
+  | [], k, c => [(k, c)]
+  | (k', h) :: rest, k, c =>
+    if k' = k then (k', if !m.cfg.storeOverwrites && h.equalsCW m.rngFixed c then h else c) :: rest
+    else (k', h) :: storeUpdate m rest k c
+
+/-- The loop of `RefreshClasses` over the classes of one workflow load. -/
+def storeLoad (m : Mode) (s : Store) (defs : List (Key × Class)) : Store :=
+  defs.foldl (fun s d => storeUpdate m s d.1 d.2) s
+
+/-- A descriptor before its class is looked up: `key` = `Descriptor.TaskClassName`. -/
+structure DescRef where
+  id : Nat
+  role : Constraints
+  key : Option Key              -- none: a class name nobody ever loads
+  deriving DecidableEq, Repr, Inhabited
+
+/-- The descriptor with the template a look-up function `f` gives for its class name. -/
+def resolveBy (f : Key → Option Class) (d : DescRef) : Desc :=
+  { id := d.id, role := d.role, cls := d.key.bind f }
+
+/-- One round of a history: a workflow load (classes handed to the store, in
+    order) followed by one OFFERS event with a deployment request; `order` is the
+    order in which the per-offer goroutines obtained the lock in that event. -/
+structure Step where
+  loads : List (Key × Class)
+  offers : List Offer
+  descs : List DescRef
+  order : List Offer
+  deriving Repr, Inhabited
+
+/-- A history `load; place; reload; place; …` from the store `s`: what every OFFERS event answers. -/
+def history (m : Mode) : Store → List Step → List Outcome
+  | _, [] => []
+  | s, st :: rest =>
+    let s' := storeLoad m s st.loads
+    round m st.offers (st.descs.map (resolveBy (storeGet s'))) st.order :: history m s' rest
 
 end Placement
